@@ -61,4 +61,13 @@ def checkField (outS outFlat : List Bytes) : Option String :=
   else if outS != outFlat then some "differs-from-flattened-field"
   else none
 
+/-- wire record: `received` = the byte stream a panel in ASCII mode got from a writer, split at line feeds;
+`produced` = the strings the encoder returned for the same messages. The property's stream clause: the produced
+strings are single lines, they frame, and the panel's lines are exactly the produced strings. -/
+def checkWire (received produced : List Bytes) : Option String :=
+  if produced.any (fun o => !oneLine o) then some "lf-in-output"
+  else if !framing produced then some "framing"
+  else if received != produced then some "wire-differs-from-produced"
+  else none
+
 end RawPanelVerif.Spec.Strip
